@@ -36,6 +36,19 @@ class Valuation:
         return ("" if self.ekf else "model_") + f"ctl{int(self.control)}_cal{int(self.calibration)}_flt{int(self.filtering)}_s" + "x".join(str(n) for _, n in self.sensors)
 
 
+_FACTORY: Dict[str, Any] = {}
+
+
+def _mk(kind, **fields):
+    """a node of the repo's own ast_tools class when an evaluator is available (so that the repo's printer prints it), else a plain stand-in"""
+    ev = _FACTORY.get("ev")
+    if ev is not None:
+        c = ev.find_class(kind)
+        if c is not None:
+            return c(**fields)
+    return Node(kind, **fields)
+
+
 class FakeSym:
     """stand-in for a sympy expression in the construction code: printable, substitutable, differentiable"""
 
@@ -60,7 +73,7 @@ class FakeBlock:
         self.decl = decl
 
     def compile(self):
-        return [Node("MemberDeclaration", type_="", name=t, value=v) for t, v in self.statements]
+        return [_mk("MemberDeclaration", type_="", name=t, value=v) for t, v in self.statements]
 
 
 class FakeCov:
@@ -75,7 +88,7 @@ class FakeReading:
         self.size = size
         self.identifier = f"SensorId::{name.upper()}"
         self.sensor_model_mapping = {f"{name}_r{i}": FakeSym() for i in range(size)}
-        body = [Node("Return", value="{}")]
+        body = [_mk("Return", value="{}")]
         self.SensorModel_model_body = body
         self.SensorModel_covariance_body = body
         self.SensorModel_jacobian_body = body
@@ -108,6 +121,14 @@ class FakeGenerator:
         self.namespace = "gen"
         self.header_include = "witness.h"
         self.config = FakeConfig(v)
+        if w is not None:
+            cfg = w.evaluator().find_class("Config")
+            # the repo's own cpp.Config (its ccode() prints the constants the templates and the runtime read)
+            cands = [c for c in [cfg] if c is not None and c.mod == "cpp"]
+            ev0 = w.evaluator()
+            if "Config" in ev0.classes.get("cpp", {}):
+                self.config = minieval.ClassRef(ev0, "cpp", ev0.classes["cpp"]["Config"])(innovation_filtering=5.0 if v.filtering else 0.0)
+            _ = cands
         self.arglist_state = [f"s{i}" for i in range(v.n_state)]
         self.arglist_control = [f"u{i}" for i in range(v.n_control)] if v.control else []
         self.arglist_calibration = [f"k{i}" for i in range(v.n_calib)] if v.calibration else []
@@ -135,8 +156,7 @@ class FakeGenerator:
     def _real(self, cls, name, *args):
         """evaluate the generator class's own method (from the current cpp.py) on this stand-in"""
         w = self._w
-        ev = minieval.MiniEval({"ast_fragments": w.frag, "cpp": w.cpp}, aliases={"fragments": "ast_fragments"},
-                               natives={"BasicBlock": FakeBlock, "Symbol": FakeSym, "diff": (lambda a, b: FakeSym()), "sympy": None})
+        ev = w.evaluator(natives={"BasicBlock": FakeBlock, "Symbol": FakeSym, "diff": (lambda a, b: FakeSym()), "sympy": None})
         c = core.find_class(w.cpp, cls)
         fn = core.find_func(c, name) if c is not None else None
         if fn is None:
@@ -188,7 +208,7 @@ class FakeGenerator:
         return list(self._readings)
 
     def _stub(self):
-        return [Node("Return", value="{}")]
+        return [_mk("Return", value="{}")]
 
 
 
@@ -229,11 +249,15 @@ def sensor_shape(ctx: core.Ctx):
     return out
 
 
+TOOLS = "py/formak/ast_tools.py"
+
+
 class Witness:
     def __init__(self, ctx: core.Ctx):
         self.ctx = ctx
         self.frag = ctx.parse(FRAG)
         self.cpp = ctx.parse(CPP)
+        self.tools = ctx.parse(TOOLS)
         self.tpl_cache: Dict[str, str] = {}
         if not _SHAPE.get("busy"):
             _SHAPE["busy"] = True
@@ -242,6 +266,34 @@ class Witness:
             finally:
                 _SHAPE["busy"] = False
 
+    def evaluator(self, natives=None):
+        """partial evaluator over the repo's construction code: ast_fragments, cpp and the node classes + printer of ast_tools
+        (jinja2 -- FromFileTemplate.compile -- is the one modelled external: the repo's template text rendered by fv.minieval.render_template)"""
+        ev = minieval.MiniEval({"ast_fragments": self.frag, "cpp": self.cpp, "ast_tools": self.tools}, aliases={"fragments": "ast_fragments"}, natives=natives)
+
+        def from_file(inst, options=None, **kw):
+            ins = inst.inserts or {}
+            return ([f"// ---- begin template {inst.name} {ins}"] + self.template(inst.name, ins).split("\n") + [f"// ---- end template {inst.name}"])
+        ev.method_hooks[("FromFileTemplate", "compile")] = from_file
+        _FACTORY["ev"] = ev
+        return ev
+
+    def print_nodes(self, ev, nodes) -> List[str]:
+        """the text the repo's own printer (ast_tools.<Node>.compile) produces for these nodes"""
+        cs_cls = ev.find_class("CompileState")
+        if cs_cls is None:
+            raise core.AnalysisError("anchor missing: ast_tools.CompileState")
+        out: List[str] = []
+        for n in nodes:
+            if isinstance(n, minieval.Inst):
+                for line in n.compile(cs_cls(indent=0)):
+                    if not isinstance(line, str):
+                        raise core.AnalysisError(f"ast_tools printer yielded a non-string for {n.kind}: {line!r}")
+                    out.extend(line.split("\n"))
+            else:
+                minieval.cpp_print(n, out, self.template)
+        return out
+
     def template(self, name, inserts):
         rel = f"{TEMPLATES}/{name}"
         if rel not in self.tpl_cache:
@@ -249,18 +301,16 @@ class Witness:
         return minieval.render_template(self.tpl_cache[rel], inserts)
 
     def skeleton(self, v: Valuation) -> Tuple[List[str], FakeGenerator]:
-        ev = minieval.MiniEval({"ast_fragments": self.frag, "cpp": self.cpp}, aliases={"fragments": "ast_fragments"})
+        ev = self.evaluator()
         gen = FakeGenerator(v, self)
         header = ev.call_named("cpp", "_header_body", generator=gen)
         source = ev.call_named("cpp", "_source_body", generator=gen)
         out: List[str] = []
         # Config namespace is emitted inside the generated namespace by _header_body (generator.config.ccode())
         out.append("namespace gen {")
-        for n in header:
-            minieval.cpp_print(n, out, self.template)
+        out += self.print_nodes(ev, header)
         out.append("// ---- source file part")
-        for n in source:
-            minieval.cpp_print(n, out, self.template)
+        out += self.print_nodes(ev, source)
         out.append("} // namespace gen")
         return out, gen
 
